@@ -1,5 +1,5 @@
 """Per-property policy: which rules decide which clause, floors, scope, wording for the evidence."""
-from . import rules_conv, rules_table, rules_codec, rules_layout, rules_effect, rules_path
+from . import rules_conv, rules_table, rules_codec, rules_layout, rules_effect, rules_path, rules_reply
 
 import json, os
 
@@ -107,6 +107,25 @@ PROPS = {
             {"run": rules_path.run_divzero, "floor": 4, "use_anchor_files": True},
             {"run": rules_path.run_outparam_ignored, "floor": 4, "use_anchor_files": True},
             {"run": rules_path.run_statuspolarity, "floor": 1, "use_anchor_files": True},
+        ],
+    },
+    "C12": {
+        "explanation": "OUTPARAM (callee side): out-parameter summaries by trace-partitioned interval analysis: a result parameter stored on one non-error return is stored on all "
+                       "(mpt_message_buf2id and every int function with scalar results in the anchor files). IDWIDTH: the per-width maximum in mpt_command_reserve equals "
+                       "2^(8w-1)-1 and the id writer tests the reply marker bit. CONVTYPE: every convert() implementation in the anchor files that answers `type == K` stores a "
+                       "pointer to the record type (or a record starting with it) that the consumers of K in the whole program declare. LENCLEARED: in reply senders every "
+                       "path from an accepted transport call to the return clears the armed id length. UNINITCTX: context aggregates passed with a callback are initialised first.",
+        "not_decided": "at-most-once over arm/reply/defer/release histories with a failing transport; id round trip for every value and width (only the width table and marker test)",
+        "assumptions": [],
+        "technique": "interprocedural out-parameter summaries (trace-partitioned intervals), table check, provider/consumer pointer-type agreement, typestate on the send/clear pair",
+        "level_text": "Four structural necessary conditions of 'each request answered at most once, to the right requester', each enumerated over all functions of the anchor files.",
+        "level_note": "consumer types are inferred from every convert(x, K, &p) call in the program; first-member embedding counts as the same interface",
+        "rules": [
+            {"run": rules_reply.run_outparam_callee, "floor": 1, "use_anchor_files": True},
+            {"run": rules_reply.run_idwidth, "floor": 8},
+            {"run": rules_reply.run_convtype, "floor": 5, "use_anchor_files": True},
+            {"run": rules_reply.run_lencleared, "floor": 1, "use_anchor_files": True},
+            {"run": rules_reply.run_uninitctx, "floor": 2, "use_anchor_files": True},
         ],
     },
 }
